@@ -142,7 +142,7 @@ def call(eng, s, fr, node):
             raise Unsupported("value cast to the array's coordinate subtype (the model fixes it to float64)")
         if len(args) == 1 and isinstance(args[0], (SInt, SFloat, SBool)):
             if fv.elem == 'float':
-                return to_float(args[0])
+                return to_float(args[0]).widened() if fv.name == 'float64' else to_float(args[0])
             if fv.elem == 'bool':
                 return to_bool(args[0])
             return to_int(args[0])
@@ -242,7 +242,7 @@ def call_builtin(eng, s, fr, name, args, kwargs, lineno, node):
             return float_to_int(v)
         return to_int(v)
     if name == 'float':
-        return to_float(args[0])
+        return to_float(args[0]).widened()
     if name == 'bool':
         return to_bool(eng.truthy(args[0], s))
     if name == 'abs':
